@@ -16,7 +16,14 @@ def body(c):
     # ---- impl -> spec: rounds of real threads
     rec = os.path.join(c.work, "rec.ndjson")
     rounds, threads, ops = (6, 16, 60) if q else (60, 16, 200)
-    c.vh(["c20", "record", rounds, threads, ops, rec], timeout=3400)
+    rc, _ = c.vh(["c20", "record", rounds, threads, ops, rec], timeout=3400, check=False)
+    if rc != 0:
+        # the workload runs inside the harness process: if the code under test aborts it (stack overflow, double free),
+        # that is an outcome of the property ("no panic, deadlock or cross-talk"), not a tool error
+        c.report("c20:abort", "the multi-threaded workload killed the process (exit %d): %s" % (rc, c.last_stderr[-300:].strip()), {"exit": rc, "stderr": c.last_stderr[-600:]})
+        c.assumptions += ["(run aborted)"]
+        c.finish_kw = dict(exhaustive=False, rule="workload aborted")
+        return
     ev = read_ndjson(rec)
     kinds = Counter(e["key"].split(":")[0] for e in ev if e["ev"] == "op")
     c.extra["operations_run_concurrently"] = dict(kinds)
